@@ -80,6 +80,9 @@ func (w *Writer) Emit(v any) {
 	w.mu.Unlock()
 }
 
+// Flush flushes buffered lines to disk.
+func (w *Writer) Flush() { w.mu.Lock(); w.w.Flush(); w.mu.Unlock() }
+
 // Count returns the number of lines written.
 func (w *Writer) Count() int { w.mu.Lock(); defer w.mu.Unlock(); return w.n }
 
